@@ -1,7 +1,8 @@
 """
 C12 — centring moves exactly the requested point to the image centre.
 
-proofs : lean/PyAbel/Props/C12.lean (every axis length, origin, crop mode)
+proofs : lean/PyAbel/Props/C12.lean (every axis length, origin, crop mode);
+         lean/PyAbel/Props/C12Frac.lean (order-1 sub-pixel shift conserves the total and moves the first moment by exactly δ·total)
 K      : set_center / center_image vs the Lean model, bit-for-bit on labelled images (whole-pixel path,
          order=0 rounding, center_image trimming)
 S      : brute-force translate reference + intensity/centroid conservation for fractional origins
@@ -133,6 +134,40 @@ def correspondence(ck: Check, tier):
 
 
 # --------------------------------------------------------------------------------------------- oracle
+def corr_shiftlin(ck, tier):
+    """Lean `shiftLin` (the model the order-1 conservation theorems are about) vs scipy's order-1 shift of the padded data,
+    and vs set_center(crop='maintain_size', order=1) on images: rows, then columns"""
+    from scipy.ndimage import shift
+    from abel.tools.center import set_center
+    from harness.common import f2h
+    rng = np.random.default_rng(seed() + 1212)
+    for _ in range(60 if tier == "quick" else 600):
+        n = int(rng.integers(3, 30))
+        x = rng.normal(size=n)
+        k = int(rng.integers(-6, 7))
+        f = float(rng.uniform(0, 1)) if rng.random() < 0.8 else 0.0
+        ck.count(("K.shiftlin", n % 2, k < 0, f == 0), suite="K.shiftlin")
+        ref = shift(np.pad(x, 1), k + f, order=1)[1:-1]
+        got = h2arr(drive([f"shiftlin {k} {f2h(f)} {arr2h(x)}"])[0].split()[3:])
+        if got.shape != ref.shape or np.abs(got - ref).max() > 1e-13 * max(1.0, np.abs(x).max()):
+            ck.disagree("K.shiftlin", dict(n=n, k=k, f=f, x=x.tolist()), f"Lean shiftLin differs from scipy's order-1 shift by {np.abs(got - ref).max():.3g}")
+    for _ in range(12 if tier == "quick" else 80):
+        r, c = (int(v) for v in rng.integers(5, 14, size=2))
+        im = rng.normal(size=(r, c))
+        o = (float(rng.uniform(0.5, r - 1.5)), float(rng.uniform(0.5, c - 1.5)))
+        ck.count(("K.shiftlin2d", r % 2, c % 2), suite="K.shiftlin")
+        out = set_center(im, o, crop="maintain_size", order=1)
+        d0, d1 = r // 2 - o[0], c // 2 - o[1]
+        k0, k1 = int(np.floor(d0)), int(np.floor(d1))
+        cols = [h2arr(t.split()[3:]) for t in drive([f"shiftlin {k0} {f2h(d0 - k0)} {arr2h(im[:, j])}" for j in range(c)])]
+        mid = np.array(cols).T
+        rows = [h2arr(t.split()[3:]) for t in drive([f"shiftlin {k1} {f2h(d1 - k1)} {arr2h(mid[i])}" for i in range(r)])]
+        model = np.array(rows)
+        if model.shape != out.shape or np.abs(model - out).max() > 1e-12 * max(1.0, np.abs(im).max()):
+            ck.disagree("K.shiftlin", dict(shape=[r, c], origin=list(o), image=im.tolist()),
+                        f"set_center(order=1, maintain_size) differs from the row/column composition of the Lean shift by {np.abs(model - out).max():.3g}")
+
+
 def ref_translate(im, o, crop, axes):
     """independent brute-force reference for whole-pixel origins (o components already non-negative or None)"""
     out = im
@@ -295,18 +330,20 @@ def run(tier):
     ck.cov["trusted_base"] = ["Lean 4.33 kernel", "axioms propext/Classical.choice/Quot.sound",
                               "hand-written model lean/PyAbel/Model/Center.lean tied to abel/tools/center.py by the "
                               "bit-exact correspondence suites K.*",
-                              "fractional origins with order>=1 use scipy.ndimage.shift (spline resampling): outside "
-                              "the model, measured by S.frac only",
+                              "fractional origins: order=1 is modelled (linear interpolation of the zero-padded data, Model/Center.lean "
+                              "`shiftLin`, tied to scipy.ndimage.shift and to set_center by K.shiftlin; conservation of total and first "
+                              "moment proved in Props/C12Frac.lean); orders 2-5 (spline prefilter) are outside the model, measured by S.frac",
                               "origins outside the frame are not range-checked by the code; theorems assume 0<=o<n"]
-    ck.cov["unproved_clauses"] = ["fractional origin: intensity/centroid conservation (order 1 exact, 2-5 to "
-                                  "interpolation accuracy) is measured, not proved"]
+    ck.cov["unproved_clauses"] = ["fractional origin, orders 2-5: intensity/centroid conservation to interpolation accuracy (measured)"]
     ck.cov["source_fingerprint"] = source_fingerprint(["abel/tools/center.py"])
     ck.proofs("PyAbel.Props.C12")
+    ck.proofs("PyAbel.Props.C12Frac")
     ok, log = ensure_driver()
     if not ok:
         ck.broken.append(dict(kind="proof", module="pyabel_drv", why="driver build failed", log=log[-1500:]))
     else:
         correspondence(ck, tier)
+        corr_shiftlin(ck, tier)
     oracle(ck, tier, deep=bool(ck.broken) or tier == "thorough")
     return ck.finish()
 
